@@ -81,7 +81,8 @@ def motion_of(ch, rots):
 
 
 SPELLINGS = ['surf-tr12', 'surf-tr13', 'surf-startr', 'trcl-num', 'trcl-inline', 'trcl-star',
-             'implicit-both', 'implicit-neg', 'implicit-pos', 'trcl-num-startr', 'both-tr-trcl', 'both-implicit']
+             'implicit-both', 'implicit-neg', 'implicit-pos', 'trcl-num-startr', 'both-tr-trcl', 'both-implicit',
+             'implicit-collide']
 M2 = refsem.Motion((-0.5, 1.0, 0.25), refsem.rotation([0, 1, 0], 90.0).T)     # second motion for compositions
 
 
@@ -92,6 +93,20 @@ def build_state(kind, rname, m, spelling):
     st.ref = ref.moved(m)
     st.identity = m.is_identity()
     tr12 = tr_numbers(m)
+    if spelling == 'implicit-collide':
+        # cell 1 carries the TRCL, so the implicit surfaces are 1001 and 1002; the highest explicit surface
+        # number (999) lies just below them: ids allocated for the transformed copies must not collide
+        plane = refsem.mcnp_surface('px', [-20.0])
+        sph = refsem.mcnp_surface('so', [50.0])
+        pm = plane.moved(m)
+        st.ref = refsem.RefSurf(list(st.ref.comps) + list(pm.comps) + list(sph.comps), st.ref._neg, st.ref._pos)
+        st.surfs = ['1 ' + card, '2 px -20', '999 so 50']
+        st.data = ['tr7 ' + tr12]
+        st.cells = ['1 0 2 -1 trcl=7 imp:n=1', '6 0 -1001 imp:n=1', '7 0 1002 -999 imp:n=1', '8 0 1001 1002 imp:n=1']
+        objm = ref.moved(m)
+        st.expect = {1: ('fn', lambda P: pm.pos(P) & objm.neg(P)), 6: 'neg',
+                     7: ('fn', lambda P: pm.pos(P) & sph.neg(P)), 8: ('fn', lambda P: pm.pos(P) & objm.pos(P))}
+        return st
     if spelling.startswith('both-'):
         # the surface card carries TR7 (motion m) and the cell a TRCL (motion M2): the cell sees the surface
         # moved by m first, then by M2
@@ -353,7 +368,9 @@ def check_state(scn, st, transpose=False):
     neg, pos = ref.neg(P), ref.pos(P)
     exp = {}
     for c, sdesc in st.expect.items():
-        if isinstance(sdesc, tuple):
+        if isinstance(sdesc, tuple) and sdesc[0] == 'fn':
+            exp[c] = sdesc[1](P)
+        elif isinstance(sdesc, tuple):
             fv = ref.comps[sdesc[1] - 1][0](P)
             exp[c] = (fv < 0) if sdesc[2] < 0 else (fv > 0)
         else:
